@@ -3,7 +3,7 @@
 use super::*;
 
 pub fn run(ctx: &mut Ctx, reg: &Registry) {
-    let nvals = nvals(ctx, 10, 80);
+    let nvals = nvals(ctx, 40, 80);
     for (fi, fam) in reg.families.iter().enumerate() {
         if !ctx.mine(fi) || !ctx.wants_type(fam.name) {
             continue;
